@@ -202,6 +202,10 @@ func runXtplCase(r *Rng, out *outFiles, work string, idx int) {
 	if custom {
 		kws = []xKw{{"tr", 0, 1, 0}, {"trn", 0, 1, 2}, {"pgettext", 1, 2, 0}, {"second", 0, 2, 0}}
 		kwSpec = "tr;trn:1,2;pgettext:1c,2;second:2"
+	} else if r.Chance(25) { // the context position written AFTER the msgid / plural positions
+		custom = true
+		kws = []xKw{{"ctr", 2, 1, 0}, {"nctr", 3, 1, 2}, {"tr", 0, 1, 0}, {"rev", 0, 2, 1}}
+		kwSpec = "ctr:2c,1;nctr:3c,1,2;tr;rev:2,1"
 	}
 	ap := r.Pick([]string{":", ":", "v-", "th:"})
 	nfiles := 1 + r.Intn(3)
